@@ -303,6 +303,145 @@ def exec_net(spec):
     return res
 
 
+def exec_ckpt(spec):
+    """save -> new wrapper -> load_state_dict -> eval forward.  A searched model A (options / history from the spec) is
+    check-pointed with torch.save(state_dict()); a NEW wrapper B around the same seed network is built with sampling
+    disabled (at construction, or switched off right after the load and before any forward) and loads the checkpoint.
+    Oracle (own keys `mps:checkpoint:*`): every selector of B holds the coefficients of the saved model and evaluates them
+    (one-hot at argmax of the loaded alpha when A was saved after an eval-mode forward), B's outputs equal A's, and
+    summary()/export() of B report / materialise what A's summary() reports."""
+    torch = base._torch()
+    import io, copy
+    from plinio.methods.mps.nn.qtz import MPSBaseQtz
+    rng = random.Random(spec['seed'])
+    res = {'spec': spec, 'fails': [], 'sel': {}, 'mism': [], 'cut': None, 'selrecs': []}
+    nops = len(spec['ops'])
+    try:
+        def selectors(p):
+            qs = {}
+            for n_, m in p.seed.named_modules():
+                if isinstance(m, MPSBaseQtz):
+                    qs.setdefault(id(m), (n_, m))
+            return dict(qs.values())
+
+        def cols(t):
+            t = t.detach()
+            return [[frac(v) for v in t[:, j].tolist()] for j in range(t.shape[1])] if t.dim() == 2 else [[frac(v) for v in t.tolist()]]
+
+        def obs(m):
+            return {'name': m.sample_alpha.__name__, 'hard': bool(m.hard_softmax), 'training': bool(m.training), 'T': frac(float(m.temperature)),
+                    'theta': cols(m.theta_alpha), 'alpha': cols(m.alpha)}
+        A, x = build(spec)
+        for n_, m in selectors(A).items():
+            P = m.alpha.shape[0]
+            C = m.alpha.shape[1] if m.alpha.dim() == 2 else 1
+            a = torch.tensor(base.gen_alpha(rng, P, C), dtype=torch.float32)
+            base.set_alpha(m, a.t().contiguous() if m.alpha.dim() == 2 else a[0], 'data')
+        for op in spec['ops']:
+            if op[0] == 'mupd':
+                A.update_softmax_options(temperature=op[1], hard=op[2], gumbel=op[3], disable_sampling=op[4])
+            elif op[0] in ('train', 'eval'):
+                A.train(op[0] == 'train')
+            elif op[0] == 'fwd':
+                torch.manual_seed(op[1])
+                with base.grad_ctx(op[2]):
+                    yA = A(x)
+        saved = {n_: obs(m) for n_, m in selectors(A).items()}
+        summA = A.summary()
+        buf = io.BytesIO()
+        torch.save(A.state_dict(), buf)
+        buf.seek(0)
+        # ---- the new wrapper
+        T, h, g, d = spec['ctor']
+        bspec = dict(spec, ctor=(T, h, g, spec['b_disable_at_ctor']))
+        B, _ = build(bspec)
+        B.load_state_dict(torch.load(buf))
+        if not spec['b_disable_at_ctor']:
+            B.update_softmax_options(disable_sampling=True)
+        selB = selectors(B)
+        for n_, m in selB.items():
+            st = obs(m)
+            if st['alpha'] != saved[n_]['alpha']:
+                res['fails'].append(('mps:checkpoint:reloaded-alpha-differs-from-saved', '%s: alpha after load_state_dict %r, saved %r' % (n_, [[float(v) for v in c] for c in st['alpha']], [[float(v) for v in c] for c in saved[n_]['alpha']]), nops))
+            if st['theta'] != saved[n_]['theta']:
+                res['fails'].append(('mps:checkpoint:reloaded-coefficients-differ-from-saved', '%s: theta_alpha after load_state_dict into a wrapper with sampling disabled is %r, the saved model evaluates %r' % (
+                    n_, [[float(v) for v in c] for c in st['theta']], [[float(v) for v in c] for c in saved[n_]['theta']]), nops))
+            # the model: a disabled sampler holding the SAVED coefficients
+            res['sel'][n_] = {'init': dict(saved[n_], name=st['name'], hard=st['hard'], T=st['T'], training=st['training'], gumbel=bool(g), disabled=True),
+                              'mops': [], 'steps': [], 'tab': [], 'margins': [], 'P': m.alpha.shape[0]}
+        order = []
+        hooks = [m.register_forward_pre_hook(lambda mod, inp, k=n_: order.append(k)) for n_, m in selB.items()]
+        B.eval()
+        for n_, m in selB.items():
+            res['sel'][n_]['mops'].append(['eval'])
+            res['sel'][n_]['steps'].append(obs(m))
+        with base.grad_ctx(spec['b_grad_mode']):
+            yB = B(x)
+        for h_ in hooks:
+            h_.remove()
+        saved_in_eval = bool(spec['ops']) and spec['ops'][-1][0] == 'fwd' and ('eval',) in [tuple(o) for o in spec['ops']] and \
+            [tuple(o) for o in spec['ops'] if o[0] in ('train', 'eval')][-1] == ('eval',)
+        for n_, m in selB.items():
+            if n_ not in order:
+                continue
+            st = obs(m)
+            rec = res['sel'][n_]
+            Timpl = m.temperature.item()
+            al = m.alpha.detach()
+            flat = (lambda t: (t.t() if t.dim() == 2 else t).flatten().tolist())
+            rec['tab'].append((frac(Timpl), [base.z30(a_) for a_ in flat(al)], [base.me30(math.exp(z_)) for z_ in flat(al / Timpl)]))
+            rec['mops'].append(['fwd', [], None])
+            rec['steps'].append(st)
+            if st['theta'] != saved[n_]['theta']:
+                res['fails'].append(('mps:checkpoint:evaluated-coefficients-differ-from-saved', '%s: the re-loaded wrapper (sampling disabled) evaluates %r, the saved model %r' % (
+                    n_, [[float(v) for v in c] for c in st['theta']], [[float(v) for v in c] for c in saved[n_]['theta']]), nops))
+            if saved_in_eval:
+                if [base.onehot_pos(c) for c in st['theta']] != [base.argmax_first(a) for a in st['alpha']]:
+                    res['fails'].append(('mps:checkpoint:eval-not-onehot-at-argmax-after-reload', '%s: eval-mode coefficients of the re-loaded model %r are not the one-hot at argmax of the loaded alpha %r' % (
+                        n_, [[float(v) for v in c] for c in st['theta']], [[float(v) for v in c] for c in st['alpha']]), nops))
+            else:
+                # saved in training mode: the frozen soft / Gumbel coefficients are evaluated in eval mode -> the open disable-sampling finding
+                for key, what in base.oracle_forward('layer', dict(st, name='sample_alpha_none'), st):
+                    res['fails'].append((key, '%s: %s' % (n_, what), nops))
+        if saved_in_eval and not torch.allclose(yA.detach(), yB.detach(), atol=1e-5):
+            res['fails'].append(('mps:checkpoint:reloaded-model-computes-different-function', 'outputs of the saved model and of the re-loaded wrapper differ by %.4g' % float((yA - yB).abs().max()), nops))
+        if B.summary() != summA:
+            res['fails'].append(('mps:checkpoint:reloaded-summary-differs-from-saved', 'summary() of the re-loaded wrapper %r, of the saved model %r' % (B.summary(), summA), nops))
+        import contextlib
+        with contextlib.redirect_stderr(io.StringIO()):
+            f_, recs = selection_check(B, nops)
+        res['fails'] += f_
+        res['selrecs'] = recs
+    except Exception as ex:
+        import traceback
+        if base.pytorch_inference_limit(ex):
+            res['cut'] = -1
+        else:
+            res['fails'].append(('mps:checkpoint:run-raised', 'EXC:%s %s' % (type(ex).__name__, traceback.format_exc()[-500:]), None))
+    return res
+
+
+def specs_ckpt(ctx):
+    rng = ctx.rng
+    out = []
+    for dim in (1, 2):
+        for pc in (False, True):
+            for saved_mode in ('eval', 'eval', 'train'):
+                for at_ctor in (True, False):
+                    for rep in range(1 if ctx.quick else 4):
+                        ops = []
+                        if rng.random() < 0.5:
+                            ops.append(('mupd', rng.choice([None] + base.TEMPS), rng.choice([None, True, False]), rng.choice([None, True, False]), None))
+                        if rng.random() < 0.6:
+                            ops += [('train',), ('fwd', rng.randrange(1 << 30), 'grad')]
+                        ops += [(saved_mode,), ('fwd', rng.randrange(1 << 30), rng.choice(['grad', 'no_grad']))]
+                        out.append({'fam': 'ckpt', 'dim': dim, 'residual': rng.random() < 0.4, 'per_channel': pc, 'width': rng.choice([2, 3, 4]),
+                                    'wprec': rng.sample([2, 4, 8], rng.randint(2, 3)), 'aprec': rng.sample([2, 4, 8], rng.randint(2, 3)),
+                                    'ctor': (rng.choice(base.TEMPS), rng.random() < 0.4, rng.random() < 0.4, False), 'seed': rng.randrange(1 << 30),
+                                    'keep': True, 'ops': ops, 'b_disable_at_ctor': at_ctor, 'b_grad_mode': rng.choice(['grad', 'no_grad'])})
+    return out
+
+
 def upd(path, **kw):
     a = (kw.get('t'), kw.get('h'), kw.get('g'), kw.get('d'))
     return ('mupd',) + a if path == 'model' else ('lupd', path) + a
